@@ -59,6 +59,11 @@ def c06(ck, tier, seed):
     # stress histories: few operands, every operator again and again with varying numeric arguments
     base = {"count": 25 if tier == "quick" else 300, "nmax": 5, "steps": 120, "stress": 1}
     _record_and_replay(ck, "C06", tier, seed + 1000, base, variants, sub="stress")
+    # MTBDD and TDD: different operators on the same operands (min then max, sub with 0 on either side, ...) on
+    # 1/2/64-bucket caches, gc in between (TraceMV, obligation cache:<op>)
+    import chk_mv
+    for drv in ["mtbdd", "tdd"]:
+        chk_mv._run(ck, drv, ["C06"], tier, seed + 11)
     import checks
     checks.store_mc(ck, tier)
     ck.assumptions += ["cache insertion/hit events are not instrumented (no hook): only observable results are judged"]
